@@ -110,6 +110,8 @@ const (
 	opIfBit            // execute the next opcode only if the last drawn bool was true
 	opNilDerefB        // run-time panic at a second site (same message as opNilDeref)
 	opDeepA            // Fatalf reached through 20 frames of recursion, called from statement A
+	opDrawDistinct     // SliceOfDistinct(Bool()).Draw (rejection-based)
+	opDrawFiltered     // Bool().Filter(id).Draw (rejection-based)
 	opDeepB            // the same helper called from statement B: the tracebacks differ only in the outermost frames
 	opCount
 )
@@ -125,6 +127,7 @@ const (
 
 type vInv struct {
 	draws    []uint64 // values received, in order
+	drawLog  []string // what the draw log lines of this invocation should say
 	attempts int      // draws started (a draw cut short by invalid data is started but not received)
 	signals  int      // failure signals raised during this invocation (incl. its cleanups and custom fns)
 	nonFatal int
@@ -151,6 +154,8 @@ type vProg struct {
 	cur  *vInv
 	nextCleanup int
 	firstCtx any
+	maxInv   int // bound on the number of fresh (generation-phase) test cases explored (0 = none)
+	fresh    int
 }
 
 // newVProg makes a program of k symbolic opcodes (plus ksub for callbacks) restricted to alphabet.
@@ -189,6 +194,13 @@ func (p *vProg) prop(t *T) {
 	if p.cur != nil && !p.cur.allCleanupsDone() {
 		p.cur.overlap = true
 	}
+	if rs, ok := t.s.(*randomBitStream); ok && !rs.persist {
+		// generation phase (findBug): bound the number of fresh test cases explored
+		p.fresh++
+		if p.maxInv > 0 && p.fresh > p.maxInv {
+			assume(false) // stated bound: longer generation histories are not explored
+		}
+	}
 	inv := &vInv{ctxSame: true}
 	p.invs = append(p.invs, inv)
 	p.cur = inv
@@ -222,13 +234,37 @@ func (p *vProg) execCB(t *T, ops []uint8, inv *vInv, inCallback bool, inCleanup 
 			lastBit = b
 			if b {
 				inv.draws = append(inv.draws, 1)
+				inv.drawLog = append(inv.drawLog, "[rapid] draw b: true")
 			} else {
 				inv.draws = append(inv.draws, 0)
+				inv.drawLog = append(inv.drawLog, "[rapid] draw b: false")
 			}
 		case opDrawByte:
 			inv.attempts++
 			v := Uint8().Draw(t, "u8")
 			inv.draws = append(inv.draws, uint64(v))
+		case opDrawDistinct:
+			inv.attempts++
+			sl := SliceOfDistinct(Bool(), ID[bool]).Draw(t, "ds")
+			v := uint64(len(sl)) * 4
+			for i, b := range sl {
+				if b {
+					v |= 1 << uint(i)
+				}
+			}
+			lastBit = len(sl) > 0 && sl[0]
+			inv.draws = append(inv.draws, v)
+			inv.drawLog = append(inv.drawLog, "[rapid] draw ds: "+boolSliceGoString(sl))
+			if symbolic() {
+				// the executor's fmt model does not render %#v of slices the way package fmt does
+				inv.drawLog[len(inv.drawLog)-1] = "[rapid] draw ds: " + "*"
+			}
+		case opDrawFiltered:
+			inv.attempts++
+			b := Bool().Filter(func(b bool) bool { return b }).Draw(t, "fb")
+			lastBit = b
+			inv.draws = append(inv.draws, b2u(b))
+			inv.drawLog = append(inv.drawLog, "[rapid] draw fb: true")
 		case opDrawWord:
 			inv.attempts++
 			w := t.s.drawBits(64)
@@ -355,4 +391,19 @@ func deepFatal(t *T, depth int) {
 		t.Fatalf("fatal deep inside")
 	}
 	deepFatal(t, depth-1)
+}
+
+func boolSliceGoString(sl []bool) string {
+	s := "[]bool{"
+	for i, b := range sl {
+		if i > 0 {
+			s += ", "
+		}
+		if b {
+			s += "true"
+		} else {
+			s += "false"
+		}
+	}
+	return s + "}"
 }
